@@ -322,4 +322,43 @@ theorem run_tag (m : Mode) (c : Cfg) (chunks : List (List Nat × List Nat)) (end
     | none => rfl
     | some y => rfl
 
+theorem tag_withEnc (m : Mode) (e : Enc) (fe : Fe Nat) : tag (m.withEnc e) fe = tag m fe := rfl
+
+theorem feedAllX_tag (m : Mode) (c : Cfg) :
+    ∀ (chunks : List (Enc × List Nat × List Nat)) (fe : Fe Nat),
+      feedAllX m c (tag m fe) chunks = (FeBuf.feedAll c fe (chunks.map (·.2))).map (tagRun m) := by
+  intro chunks
+  induction chunks with
+  | nil => intro fe; rfl
+  | cons ch rest ih =>
+    intro fe
+    obtain ⟨e, buf, ls⟩ := ch
+    simp only [List.map_cons, feedAllX, FeBuf.feedAll]
+    rw [← tag_withEnc m e fe, feedChunk_tag]
+    cases FeBuf.feedChunk c fe buf ls with
+    | none => rfl
+    | some x =>
+      simp only [Option.map_some, Option.bind_some, tagChunk, tag_withEnc]
+      rw [ih x.fst]
+      cases FeBuf.feedAll c x.fst (rest.map (·.2)) with
+      | none => rfl
+      | some r => simp [tagRun]
+
+/-- a whole utterance whose chunks go through `fe_process_int16` or `fe_process_float32` as the
+caller likes: same result as the index model on the chunks without their encodings -/
+theorem runX_tag (m : Mode) (c : Cfg) (chunks : List (Enc × List Nat × List Nat)) (endRoom : Nat) :
+    runX m c chunks endRoom
+      = (FeBuf.run c (chunks.map (·.2)) endRoom).map (fun x => (tagRun m x.1, x.2)) := by
+  simp only [runX, FeBuf.run]
+  have h := feedAllX_tag m c chunks start
+  rw [show (tag m (start : Fe Nat)) = (start : Fe Cell) from rfl] at h
+  rw [h]
+  cases FeBuf.feedAll c start (chunks.map (·.2)) with
+  | none => rfl
+  | some r =>
+    simp only [Option.map_some, Option.bind_some, tagRun, finish_tag]
+    cases FeBuf.finish c r.fe endRoom with
+    | none => rfl
+    | some y => rfl
+
 end SSVerif.FeSwap
